@@ -1,2 +1,3 @@
 import GqlProofs.Props.C03
 import GqlProofs.Props.C18
+import GqlProofs.Props.C10
